@@ -1151,6 +1151,10 @@ func (r *Runner) Step(i int, a *Action) (err error) {
 			return err
 		}
 		r.takeHooks()
+		// InvalidateAll first replays the pending write events (which may evict), then removes what is left
+		if err = r.preReconcile(r.sortedKeys()); err != nil {
+			return err
+		}
 		for _, kk := range r.sortedKeys() {
 			r.modelDelete(kk, otter.CauseInvalidation)
 		}
